@@ -156,7 +156,7 @@ impl<P: PType> Sut for PrefixSet<P> {
             }
             K::Clear => {
                 self.clear();
-                model.m.clear();
+                model.clear();
             }
             K::Retain => {
                 let before = model.entries();
